@@ -29,6 +29,7 @@ import (
 	"google.golang.org/grpc/metadata"
 	"google.golang.org/grpc/stats"
 	"google.golang.org/grpc/status"
+	"google.golang.org/protobuf/encoding/protowire"
 	"google.golang.org/protobuf/proto"
 	"google.golang.org/protobuf/reflect/protoreflect"
 	"google.golang.org/protobuf/reflect/protoregistry"
@@ -636,6 +637,23 @@ func genListHeader(t *rapid.T) [2]string {
 	return [2]string{name, strings.Join(parts, rapid.SampledFrom([]string{", ", ",", " , ", ";"}).Draw(t, "lhSep"))}
 }
 
+// protoOfSize returns the encoding of un.All{f_string: "aaa..."} with exactly n bytes (n = 1 is a lone tag byte: malformed, which is fine here).
+func protoOfSize(n int) []byte {
+	switch {
+	case n <= 0:
+		return nil
+	case n == 1:
+		return []byte{0x72}
+	}
+	for l := n - 2; l >= 0; l-- {
+		b := append([]byte{0x72}, protowire.AppendVarint(nil, uint64(l))...)
+		if len(b)+l == n {
+			return append(b, bytes.Repeat([]byte("a"), l)...)
+		}
+	}
+	return bytes.Repeat([]byte{0}, n)
+}
+
 func genPath(t *rapid.T) string {
 	switch rapid.IntRange(0, 9).Draw(t, "pathKind") {
 	case 0, 1, 2:
@@ -702,6 +720,16 @@ func genValidish(t *rapid.T) Case {
 		c.Method, c.Path, c.Body = r[0], r[1], []byte(r[2])
 		if len(c.Body) > 0 {
 			c.Headers = append(c.Headers, [2]string{"Content-Type", "application/json"})
+			if (c.Path == "/c9/stream" || c.Path == "/c9/client") && rapid.IntRange(0, 2).Draw(t, "vproto") == 0 {
+				// a length-delimited protobuf stream with message sizes around the pooled buffer capacities
+				var sb bytes.Buffer
+				for i, n := 0, rapid.IntRange(1, 3).Draw(t, "vpn"); i < n; i++ {
+					sz := rapid.SampledFrom([]int{0, 1, 2, 10, 62, 63, 64, 65, 66, 126, 127, 128, 129, 130, 200, 1000, 1023, 1024, 1025}).Draw(t, "vpsz")
+					larking.CodecProto{}.WriteNext(&sb, protoOfSize(sz))
+				}
+				c.Body = sb.Bytes()
+				c.Headers[len(c.Headers)-1] = [2]string{"Content-Type", "application/protobuf"}
+			}
 			if rapid.IntRange(0, 3).Draw(t, "vhgz") == 0 {
 				// a well-formed compressed body on every kind of binding (unary, streaming, HttpBody)
 				c.Body = drive.Gzip(c.Body)
